@@ -593,7 +593,8 @@ where
     /// ```
     pub async fn blobs_count(&self) -> usize {
         let safe = self.inner.safe.read().await;
-        let count = safe.blobs.read().await.len();
+        // `len()` is the number of slots: a blob taken out by `try_restore_active_blob` leaves an empty one behind
+        let count = safe.blobs.read().await.iter().count();
         if safe.active_blob.is_some() {
             count + 1
         } else {
